@@ -75,6 +75,11 @@ def sink_rules(rep, prog):
     if flagc is None:
         if for_else_scan(rep, S, f, q, r, lits):
             return
+        inverted = [cnd for cnd, pol in lits if cnd[0] == "after" and pol is True and S.loopinfo.get(cnd[1], {}).get("test") is not None and
+                    (cnd[2], False) in [(x[2], pl) for x, pl in literals([(S.loopinfo[cnd[1]]["test"], True)]) if x[0] == "mu"]]
+        if inverted:
+            rep.bad("RAISE.iff", fwhere(f, r.node), "ValueError is raised when the scan *found* an admissible node (the flag is tested with the wrong polarity)")
+            return
         rep.unk("RAISE.iff", fwhere(f, r.node), "the ValueError is not raised on a flag left by the scan for a sink (`if not found: raise`): not read")
         return
     scan, flag = flagc[1], flagc[2]
@@ -92,6 +97,7 @@ def sink_rules(rep, prog):
         extra.append("%s is %s" % (fmt(cnd)[:60], pol))
     rep.check("RAISE.iff", not extra, fwhere(f, r.node), "ValueError exactly when a scan over the remaining nodes ends without an admissible sink",
               "the ValueError needs more than a failed scan: it is raised only if also " + "; ".join(extra))
+    outer_test(rep, f, S, q, scan)
     # ---- the scan
     mu = lambda n: ("mu", scan, n)
     ints = [k for k, v in lp["init"].items() if is_const(v) and isinstance(v[1], int) and not isinstance(v[1], bool)]
@@ -117,6 +123,7 @@ def sink_rules(rep, prog):
             except Inconclusive:
                 Pn = None
     okstop = stop == [(mu(flag), False)]
+    flag_init = lp["init"].get(flag)
     nx = lp["next"].get(iv)
     step = ("binop", "+", mui, ("const", 1))
     okstep = nx is not None and nx[0] == "phi" and nx[1] == found_next and nx[2] == mui and nx[3] in (step, ("binop", "+", ("const", 1), mui))
@@ -127,6 +134,8 @@ def sink_rules(rep, prog):
         why = []
         if not init0:
             why.append("the scan starts at node %s" % fmt(lp["init"][iv]))
+        if is_const(flag_init) and flag_init[1] is not False:
+            why.append("the flag is %s before the scan, so the scan never runs (and nothing is removed: the search does not end)" % fmt(flag_init))
         if not okb:
             why.append("the scan runs while %s%s" % ("" if bound[0][1] else "not ", fmt(bound[0][0])[:60]))
         if not okstop:
@@ -138,6 +147,48 @@ def sink_rules(rep, prog):
     if Pn is None:
         return
     sink_condition(rep, f, lp, found_next, mui, mu(Pn))
+
+
+def outer_test(rep, f, S, q, scan):
+    """the search goes on exactly while nodes remain: the test of the loop around the scan, a comparison of P.size / len(P) with a constant, evaluated for
+    0..5 remaining nodes - it must be False at 0 (otherwise the scan over nothing "fails" and every input raises) and True from 2 nodes on (one remaining
+    node has no edge left to orient, so stopping at 1 is the same)"""
+    outs = [(k, v) for k, v in S.loopinfo.items() if v["func"] == q and v["test"] is not None and k != scan and scan[1] > k[1]]
+    if len(outs) != 1:
+        rep.unk("LOOP.until-empty", fwhere(f), "the loop around the scan is not identified")
+        return
+    lo, ol = outs[0]
+    t = ol["test"]
+    pol = True
+    while t[0] == "unop" and t[1] in ("not", "truth"):
+        pol = (not pol) if t[1] == "not" else pol
+        t = t[2]
+    def measure(x):
+        if x[0] == "attr" and x[2] == "size" and x[1][0] == "mu" and x[1][1] == lo:
+            return lambda n: n * n
+        if x[0] == "ext" and x[1] == "len" and len(x[2]) == 1 and x[2][0][0] == "mu" and x[2][0][1] == lo:
+            return lambda n: n
+        if x[0] == "sub" and x[1][0] == "attr" and x[1][2] == "shape" and x[1][1][0] == "mu" and x[1][1][1] == lo and is_const(x[2]):
+            return lambda n: n
+        return None
+    import operator as _op
+    OPS = {">": _op.gt, ">=": _op.ge, "<": _op.lt, "<=": _op.le, "!=": _op.ne, "==": _op.eq}
+    val = None
+    if t[0] == "cmp" and t[1] in OPS:
+        for a_, b_, flip in ((t[2], t[3], False), (t[3], t[2], True)):
+            m_ = measure(a_)
+            if m_ is not None and is_const(b_) and isinstance(b_[1], (int, float)) and not isinstance(b_[1], bool):
+                val = (lambda n, m_=m_, b_=b_, flip=flip: (OPS[t[1]](b_[1], m_(n)) if flip else OPS[t[1]](m_(n), b_[1])) == pol)
+    elif measure(t) is not None:
+        val = lambda n, m_=measure(t): (m_(n) != 0) == pol
+    if val is None:
+        rep.unk("LOOP.until-empty", fwhere(f, ol["node"]), "the loop around the scan does not test the size of the remaining graph against a constant: not read")
+        return
+    table = {n: val(n) for n in range(0, 6)}
+    ok = table[0] is False and all(table[n] for n in range(2, 6))
+    rep.check("LOOP.until-empty", ok, fwhere(f, ol["node"]), "the search continues exactly while nodes remain (test false for the empty graph, true from two nodes on)",
+              "the loop around the scan runs for %s remaining nodes: %s" % (", ".join(str(n) for n in table if table[n]) or "no",
+              "with nothing left the scan finds no sink and ValueError is raised for every input" if table[0] else "nodes are left unprocessed"))
 
 
 def for_else_scan(rep, S, f, q, r, lits):
@@ -166,6 +217,7 @@ def for_else_scan(rep, S, f, q, r, lits):
             rep.unk("SCAN.complete", fwhere(f, lp["node"]), "the scan does not run over range(len(P)) of the remaining graph: not read")
         return True
     Pn = names[0]
+    outer_test(rep, f, S, q, scan)
     rep.ok("SCAN.complete", fwhere(f, lp["node"]), "every remaining node is tried: for i in range(len(P)), left at the first admissible node")
     benv = lp["breaks"][0]
     bpath = literals(list(benv.get("$path", ())))
@@ -251,8 +303,8 @@ def sink_condition(rep, f, lp, found_next, mui, muP):
         alg = SetAlg(atoms, max_atoms=4, feasible=lambda r: (not r[3] or r[0]) and (not r[1] or (r[0] and r[3] and not r[2])))
         yreg = [r_ for r_ in alg.regions if r_[1]]
         ok, wit = alg.equal(lambda w: alg.truth(elt, w), lambda w: not alg.nonempty(("binop", "-", ("binop", "-", want_adj, Y), adj_y), w),
-                            admissible=lambda w: all(w[r_] for r_ in yreg))
-        rep.check("SINK.neighbours", ok, fwhere(f, lp["node"]), "condition 2: for every neighbour y of i, adj(i) - {y} <= adj(y) in the remaining graph (all %d admissible worlds)" % (2 ** (len(alg.regions) - 1)),
+                            admissible=lambda w: all(int(w[r_]) == 1 for r_ in yreg))       # {y} holds exactly one element
+        rep.check("SINK.neighbours", ok, fwhere(f, lp["node"]), "condition 2: for every neighbour y of i, adj(i) - {y} <= adj(y) in the remaining graph (all %d admissible worlds)" % ((3 if alg.counting else 2) ** (len(alg.regions) - 1)),
                   "condition 2 is not `adj(i) - {y} <= adj(y)`: %s" % wit)
     except Inconclusive as e:
         rep.unk("SINK.neighbours", fwhere(f, lp["node"]), "condition 2 of the sink test is not a set predicate over adj(i), {y}, adj(y): %s" % e.why)
@@ -347,6 +399,7 @@ def run(prog, rep, tier):
     rep.require_count("SINK", 3)
     rep.require_count("SCAN", 1)
     rep.require_count("RAISE", 1)
+    rep.require_count("LOOP", 1)
     rep.require_count("HCE", 1)
     rep.require_count("RULES", 4)
     rep.require_count("ORIENT", 4)
